@@ -15,8 +15,8 @@ META = {
   "technique": "Coq proofs by structural induction over an executable rose-tree model + differential correspondence (vm_compute) against the Go code",
 }
 KNOWN = [
- {"property": "X03", "id": "X03-F1", "status": "fixed", "commit": "423f76c",
+ {"property": "X03", "id": "X03-F1", "status": "fixed", "commit": "83efdf5",
   "what": "Tree.Walk on an empty tree (new tree, or only empty chains added) panicked with a nil pointer dereference instead of visiting nothing",
-  "line": "fixed: property=X03 423f76c Walk on an empty tree panicked (nil interface method call) instead of visiting nothing",
+  "line": "fixed: property=X03 83efdf5 Walk on an empty tree panicked (nil interface method call) instead of visiting nothing",
   "signature": "^(empty-history|corpus|exhaustive|random):1$"},
 ]
